@@ -1,8 +1,10 @@
 import Proofs.Lemmas.HeapRead
+import Proofs.Lemmas.SpecRoot
 /-!
-C06 helper lemmas, part 4: a statement that mutates, in place, the array object a
-root place (`$x`, `$x->p`) holds — on a state satisfying `NoUnintendedSharing` — changes
-exactly that holder, keeps the invariant, and denotes the spec's `onArray`.
+C06 helper lemmas: an in-place mutation of the array object found at a place of **any
+depth** — on a state satisfying `NoSharing` — changes exactly the root name of that place,
+along the path; keeps the invariant; and denotes the spec's `onArray`.  The write-back
+chain (`writeBackArrayProperty`) re-stores what is already there.
 -/
 namespace Proofs.Heap
 open Model.Heap
@@ -25,103 +27,204 @@ theorem varObj?_setProp (s : St) (h p : Nat) (w : Val) (x : Nat) : (s.setProp h 
   simp only [St.setProp]
   cases s.objs[h]? <;> rfl
 
-/-- identities of the new slot list: inner identities of the state or fresh below `n1` -/
-def KidsOK (s : St) (n1 : Nat) (kids' : List Slot) : Prop :=
-  ∀ i ∈ aidsL kids', InnerOf s i ∨ (s.next ≤ i ∧ i < n1)
+/-- overwriting a holder by the same value up to identities does not change what the state denotes -/
+theorem abs_setHolder_same (s : St) (P : Pos) (w nv : Val) (hP : holder? s P = some w)
+    (he : eraseVal nv = eraseVal w) : abs (setHolder s P nv) = abs s := by
+  cases P with
+  | v c =>
+    simp only [holder?] at hP
+    simp only [setHolder, abs, List.map_set, he]
+    congr 1
+    exact list_set_same _ _ _ (by simp [hP])
+  | p h p =>
+    simp only [holder?, St.propVal?] at hP
+    cases hps : s.objs[h]? with
+    | none => simp [hps] at hP
+    | some ps =>
+      simp only [hps] at hP
+      have h1 : (ps.set p nv).map eraseVal = ps.map eraseVal := by
+        rw [List.map_set, he]; exact list_set_same _ _ _ (by simp [hP])
+      simp only [setHolder, St.setProp, hps, abs, List.map_set, h1]
+      congr 1
+      exact list_set_same _ _ _ (by simp [hps])
 
-theorem root_write {s : St} (hinv : Inv s) (b : Place) (hb : b.isRoot = true) (a : Nat)
-    (kids kids' : List Slot) (hr : readPlace s b = some (.arr a kids)) (n1 : Nat) (hn : s.next ≤ n1)
-    (hk : KidsOK s n1 kids') (g : List Entry → List Entry) (hg : eraseL kids' = g (eraseL kids)) :
-    Inv (writeBack .fixed { (s.updArr a (fun _ => kids')) with next := n1 } b) ∧
-    Spec.Val.onArray (abs s) b g =
-      some (abs (writeBack .fixed { (s.updArr a (fun _ => kids')) with next := n1 } b)) := by
-  have hinner : ∀ i ∈ innerAids (Val.arr a kids'), InnerOf s i ∨ s.next ≤ i := by
-    intro i hi
-    rcases hk i (by simpa [innerAids] using hi) with h | h
-    · exact Or.inl h
-    · exact Or.inr h.1
-  have hlt : ∀ i ∈ aidsL kids', i < n1 := by
-    intro i hi
-    rcases hk i hi with h | h
-    · have := InnerOf.lt hinv h; omega
-    · exact h.2
-  cases b with
-  | idx b k => simp [Place.isRoot] at hb
+/-- reading the root name whose holder was just overwritten -/
+theorem readPlace_setHolder_root (s : St) (r : Place) (hr : r.isRoot = true) (P : Pos) (old nv : Val) (n : Nat)
+    (hroot : rootPos s r = some P) (hold : holder? s P = some old) :
+    readPlace { (setHolder s P nv) with next := n } r = some nv := by
+  cases r with
+  | idx b k => simp [Place.isRoot] at hr
   | var x =>
-    simp only [readPlace, St.varVal?] at hr
+    simp only [rootPos] at hroot
     cases hc : s.names[x]? with
-    | none => simp [hc] at hr
+    | none => simp [hc] at hroot
     | some c =>
-      simp only [hc] at hr
-      have hP : holder? s (.v c) = some (.arr a kids) := hr
-      have hupd := updArr_eq_setHolder hinv (.v c) a kids hP (fun _ => kids')
-      simp only [writeBack, hupd]
-      have ha : a < s.next := hinv.bound _ _ hP a (by simp [Val.aids])
-      refine ⟨?_, ?_⟩
-      · apply Inv.overwrite hinv (.v c) (.arr a kids) (.arr a kids') n1 hP hn
-        · intro a' k' e; injection e with e1 e2; subst e1; exact Or.inl ⟨kids, rfl⟩
-        · exact hinner
-        · intro i hi
-          simp only [Val.aids, List.mem_cons] at hi
-          rcases hi with e | e
-          · omega
-          · exact hlt i e
-      · show Spec.Val.onArray (abs s) (.var x) g = some (abs (setHolder s (.v c) (.arr a kids')))
-        rw [abs_setHolder_v s x c _ hc]
-        simp only [Spec.Val.onArray, Spec.Val.modify, abs_varVal?, St.varVal?, hc, hr, Option.map_some, eraseVal, hg]
+      simp [hc] at hroot; subst hroot
+      simp only [holder?] at hold
+      have hlt : c < s.vcells.length := (List.getElem?_eq_some_iff.mp hold).1
+      simp [readPlace, St.varVal?, setHolder, hc, hlt]
   | prop x p =>
-    simp only [readPlace] at hr
+    simp only [rootPos] at hroot
     cases hh : s.varObj? x with
-    | none => simp [hh] at hr
+    | none => simp [hh] at hroot
     | some h =>
-      simp only [hh] at hr
-      have hP : holder? s (.p h p) = some (.arr a kids) := hr
-      have hupd := updArr_eq_setHolder hinv (.p h p) a kids hP (fun _ => kids')
-      -- state after the in-place mutation
-      have hobj : ({ (setHolder s (.p h p) (.arr a kids')) with next := n1 } : St).varObj? x = some h := by
-        show (s.setProp h p (.arr a kids')).varObj? x = some h
+      simp [hh] at hroot; subst hroot
+      simp only [holder?] at hold
+      have h1 : ({ (setHolder s (.p h p) nv) with next := n } : St).varObj? x = some h := by
+        show (s.setProp h p nv).varObj? x = some h
         rw [varObj?_setProp, hh]
-      have hrd : readPlace { (setHolder s (.p h p) (.arr a kids')) with next := n1 } (.prop x p) =
-          some (.arr a kids') := by
-        simp only [readPlace, hobj]
-        show (s.setProp h p (.arr a kids')).propVal? h p = _
-        rw [propVal?_setProp s h p _ h p _ hr]; simp
-      have hfinal : writeBack .fixed { (s.updArr a (fun _ => kids')) with next := n1 } (.prop x p) =
-          { (setHolder s (.p h p) (.arr n1 kids')) with next := n1 + 1 } := by
-        rw [hupd]
-        simp only [writeBack, hrd, hobj]
-        rw [setProp_next]
-        have := setHolder_setHolder s (.p h p) (.arr a kids') (.arr n1 kids') _ hP
-        simp only [setHolder] at this
-        simp only [setHolder, this]
-      rw [hfinal]
-      refine ⟨?_, ?_⟩
-      · apply Inv.overwrite hinv (.p h p) (.arr a kids) (.arr n1 kids') (n1 + 1) hP (by omega)
-        · intro a' k' e; injection e with e1 e2; subst e1; subst e2; exact Or.inr ⟨hn, hlt⟩
-        · intro i hi
-          rcases hk i (by simpa [innerAids] using hi) with h' | h'
-          · exact Or.inl h'
-          · exact Or.inr h'.1
-        · intro i hi
-          simp only [Val.aids, List.mem_cons] at hi
-          rcases hi with e | e
-          · omega
-          · have := hlt i e; omega
-      · show Spec.Val.onArray (abs s) (.prop x p) g = some (abs (setHolder s (.p h p) (.arr n1 kids')))
-        rw [abs_setHolder_p]
-        simp only [Spec.Val.onArray, Spec.Val.modify, abs_varObj?, hh, abs_propVal?, hr, Option.map_some, eraseVal, hg]
+      simp only [readPlace, h1]
+      show (s.setProp h p nv).propVal? h p = some nv
+      rw [propVal?_setProp s h p nv h p old hold]; simp
 
-/-- slot values taken from the old list or equal to `x` have admissible identities -/
-theorem kidsOK_of_valsFrom {s : St} (P : Pos) (a : Nat) (kids kids' : List Slot) (x : Val) (n1 : Nat)
-    (hP : holder? s P = some (.arr a kids)) (hv : ValsFrom kids' kids x)
-    (hx : ∀ i ∈ x.aids, InnerOf s i ∨ (s.next ≤ i ∧ i < n1)) : KidsOK s n1 kids' := by
-  intro i hi
-  obtain ⟨sl, hsl, hm⟩ := (mem_aidsL i kids').mp hi
-  rcases hv sl hsl with ⟨sl0, h0, e⟩ | e
-  · left
-    refine ⟨P, _, hP, ?_⟩
-    simp only [innerAids]
-    exact (mem_aidsL i kids).mpr ⟨sl0, h0, by rw [← e]; exact hm⟩
-  · rw [e] at hm; exact hx i hm
+/-- the spec's rewrite of a root name, when the function maps the old tree to the new one -/
+theorem modify_root_setHolder (s : St) (c : Bool) (r : Place) (hr : r.isRoot = true) (P : Pos) (w nv : Val) (n : Nat)
+    (hroot : rootPos s r = some P) (hP : holder? s P = some w) (H : Tree → Option Tree)
+    (hH : H (eraseVal w) = some (eraseVal nv)) :
+    Spec.Val.modify (abs s) c r H = some (abs { (setHolder s P nv) with next := n }) := by
+  cases r with
+  | idx b k => simp [Place.isRoot] at hr
+  | var x =>
+    simp only [rootPos] at hroot
+    cases hc : s.names[x]? with
+    | none => simp [hc] at hroot
+    | some cc =>
+      simp [hc] at hroot; subst hroot
+      simp only [holder?] at hP
+      show _ = some (abs (setHolder s (.v cc) nv))
+      rw [abs_setHolder_v s x cc _ hc]
+      simp only [Spec.Val.modify, abs_varVal?, St.varVal?, hc, hP, Option.map_some, hH]
+  | prop x p =>
+    simp only [rootPos] at hroot
+    cases hh : s.varObj? x with
+    | none => simp [hh] at hroot
+    | some h =>
+      simp [hh] at hroot; subst hroot
+      simp only [holder?] at hP
+      show _ = some (abs (setHolder s (.p h p) nv))
+      rw [abs_setHolder_p]
+      simp only [Spec.Val.modify, abs_varObj?, hh, abs_propVal?, hP, Option.map_some, hH]
+
+/-- where the array object found at a place sits: in the value of the holder of the root
+name, at the end of the path; and the in-place mutation is `setAt` there -/
+theorem inplace_eq {s : St} (hinv : Inv s) (b : Place) (a : Nat) (kids : List Slot)
+    (hr : readPlace s b = some (.arr a kids)) (f : List Slot → List Slot) :
+    ∃ P w, rootPos s b.root = some P ∧ holder? s P = some w ∧ walk (pathOf b) w = some (.arr a kids) ∧
+      s.updArr a f = setHolder s P (setAt (pathOf b) (.arr a (f kids)) w) := by
+  rw [readPlace_root_path] at hr
+  cases hw : readPlace s b.root with
+  | none => simp [hw] at hr
+  | some w =>
+    simp only [hw, Option.bind_some] at hr
+    obtain ⟨P, hroot, hP⟩ := readPlace_root s b.root (root_isRoot b) w hw
+    have h1 := walk_cnt _ w a kids hr
+    have h2 := scnt_holder_le s P w a hP
+    have h3 := hinv.uniq a
+    refine ⟨P, w, hroot, hP, hr, ?_⟩
+    rw [updArr_eq_setHolder P a w h3 hP h1 f, updArr_eq_setAt a f _ w kids (by omega) hr]
+
+/-- **in-place mutation at a place of any depth** -/
+theorem inplace {s : St} (hinv : Inv s) (b : Place) (a : Nat) (kids kids' : List Slot)
+    (hr : readPlace s b = some (.arr a kids)) (n1 : Nat) (hn : s.next ≤ n1) (e : Nat → Nat)
+    (hk : ∀ i, cntL i kids' ≤ cntL i kids + e i)
+    (he : ∀ i, e i ≤ 1 ∧ (0 < e i → scnt s i = 0 ∧ i < n1)) :
+    Inv { (s.updArr a (fun _ => kids')) with next := n1 } ∧
+    readPlace { (s.updArr a (fun _ => kids')) with next := n1 } b = some (.arr a kids') ∧
+    (∀ i, scnt { (s.updArr a (fun _ => kids')) with next := n1 } i ≤ scnt s i + e i) ∧
+    (∀ (c : Bool) (g : List Entry → List Entry), eraseL kids' = g (eraseL kids) →
+      Spec.Val.onArray (abs s) c b g = some (abs { (s.updArr a (fun _ => kids')) with next := n1 })) ∧
+    (eraseL kids' = eraseL kids → abs { (s.updArr a (fun _ => kids')) with next := n1 } = abs s) := by
+  obtain ⟨P, w, hroot, hP, hwalk, hupd⟩ := inplace_eq hinv b a kids hr (fun _ => kids')
+  rw [hupd]
+  have hcnt : ∀ i, vcnt i (setAt (pathOf b) (.arr a kids') w) ≤ vcnt i w + e i := by
+    intro i
+    have h1 := cnt_setAt i (pathOf b) (.arr a kids') w a kids hwalk
+    have h2 := hk i
+    simp only [vcnt] at h1 ⊢
+    omega
+  refine ⟨Inv.replace hinv P w _ n1 e hP hn hcnt he, ?_, ?_, ?_, ?_⟩
+  · rw [readPlace_root_path, readPlace_setHolder_root s b.root (root_isRoot b) P w _ n1 hroot hP]
+    simp only [Option.bind_some]
+    exact walk_setAt _ _ w a kids hwalk
+  · intro i
+    rw [scnt_next]
+    have h1 := scnt_setHolder s P w (setAt (pathOf b) (.arr a kids') w) i hP
+    have h2 := hcnt i
+    omega
+  · intro c g hg
+    rw [onArray_eq, modify_root_path]
+    apply modify_root_setHolder s c b.root (root_isRoot b) P w _ n1 hroot hP
+    apply modPath_setAt c (onArr g) (pathOf b) _ w a kids hwalk
+    simp [onArr, eraseVal, hg]
+  · intro hg
+    show abs (setHolder s P _) = abs s
+    apply abs_setHolder_same s P w _ hP
+    exact erase_setAt_same _ _ w a kids hwalk (by simp [eraseVal, hg])
+
+/-! ### the write-back chain -/
+
+/-- `indexSetValueOnContainer` on the parent with a key that is there: the slot is replaced -/
+theorem writeBackAct_found (pkids : List Slot) (k2 : IKey) (j c n : Nat) (kk : Key) (old child : Val)
+    (hf : Keys.find k2 (keys pkids) = some j) (hs : pkids[j]? = some (c, kk, old)) :
+    writeBackAct .fixed pkids k2 n child = .list (pkids.set j (n, kk, child)) := by
+  cases k2 with
+  | int i =>
+    simp only [Keys.find] at hf
+    simp [writeBackAct, Cfg.fixed, setIntKey, hf, hitAct, storeSlot, hs]
+  | str t =>
+    simp only [Keys.find] at hf
+    simp [writeBackAct, setNamedKey, hf, hitAct, Cfg.fixed, storeSlot, hs]
+
+theorem readPlace_idx_arr (s : St) (b2 : Place) (k2 : IKey) (a : Nat) (kids : List Slot)
+    (h : readPlace s (.idx b2 k2) = some (.arr a kids)) :
+    ∃ pa pkids j c kk, readPlace s b2 = some (.arr pa pkids) ∧ Keys.find k2 (keys pkids) = some j ∧
+      pkids[j]? = some (c, kk, .arr a kids) := by
+  simp only [readPlace] at h
+  cases hb : readPlace s b2 with
+  | none => simp [hb] at h
+  | some pv =>
+    cases pv with
+    | sc sc => simp [hb] at h
+    | arr pa pkids =>
+      simp only [hb] at h
+      cases hf : Keys.find k2 (keys pkids) with
+      | none => simp [hf] at h
+      | some j =>
+        simp only [hf, getVal?] at h
+        cases hs : pkids[j]? with
+        | none => simp [hs] at h
+        | some sl =>
+          obtain ⟨c, kk, v⟩ := sl
+          simp only [hs, Option.map_some, Option.some.injEq] at h
+          subst h
+          exact ⟨pa, pkids, j, c, kk, rfl, hf, hs⟩
+
+theorem writeBack_ok : (b : Place) → {s : St} → Inv s → (a : Nat) → (kids : List Slot) →
+    readPlace s b = some (.arr a kids) →
+    Inv (writeBack .fixed s b) ∧ abs (writeBack .fixed s b) = abs s ∧ s.next ≤ (writeBack .fixed s b).next ∧
+      ∀ i, scnt (writeBack .fixed s b) i ≤ scnt s i
+  | .var x, s, hinv, a, kids, hr => by simp [writeBack, hinv]
+  | .prop x p, s, hinv, a, kids, hr => by simp [writeBack, Cfg.fixed, hinv]
+  | .idx b2 k2, s, hinv, a, kids, hr => by
+      obtain ⟨pa, pkids, j, c, kk, hb, hf, hs⟩ := readPlace_idx_arr s b2 k2 a kids hr
+      have hact := writeBackAct_found pkids k2 j c s.next kk (.arr a kids) (.arr a kids) hf hs
+      have hwb : writeBack .fixed s (.idx b2 k2) =
+          writeBack .fixed { (s.updArr pa (fun _ => pkids.set j (s.next, kk, .arr a kids))) with next := s.next + 1 } b2 := by
+        simp only [writeBack, hb, hr, hact, St.applyAct]
+      have hcn : ∀ i, cntL i (pkids.set j (s.next, kk, .arr a kids)) ≤ cntL i pkids + 0 := by
+        intro i
+        have := cntL_set i pkids j (c, kk, .arr a kids) (s.next, kk, .arr a kids) hs
+        simp only at this; omega
+      have her : eraseL (pkids.set j (s.next, kk, .arr a kids)) = eraseL pkids := by
+        rw [eraseL_set]
+        exact list_set_same _ _ _ (by simp [eraseL_getElem?, hs])
+      obtain ⟨i1, i2, i3, _, i5⟩ := inplace hinv b2 pa pkids _ hb (s.next + 1) (by omega) (fun _ => 0) hcn
+        (fun i => ⟨by omega, fun h => by omega⟩)
+      obtain ⟨w1, w2, w3, w4⟩ := writeBack_ok b2 i1 pa _ i2
+      rw [hwb]
+      refine ⟨w1, by rw [w2, i5 her], ?_, ?_⟩
+      · have : s.next + 1 ≤ _ := w3
+        omega
+      · intro i; have := w4 i; have := i3 i; omega
 
 end Proofs.Heap
